@@ -123,20 +123,69 @@ class Acc(object):
                  "canon", "_parts")
 
     def canon_parts(self):
-        """(array, access, [all dominating conditions]) renamed consistently (see NameCanon)"""
+        """(array, access, [all dominating conditions]) in a form that does not depend on how the source spells them: the access is the
+        base array (local pointers resolved to what they point into) with its flat index as a polynomial, the conditions are the
+        linear facts they contribute; parameters are named by position, loop variables by nesting depth, other locals by role.
+        Falls back to consistently renamed source text (NameCanon) when the index has no polynomial form."""
         got = getattr(self, "_parts", None)
         if got is not None:
             return got
-        conds = []
-        for f in self.facts:
-            if f.origin == "cond" and f.text and f.text not in conds:
-                conds.append(f.text)
         c = getattr(self, "canon", None)
-        if c is None:
-            out = [norm_text(t) for t in [self.arr, self.text] + conds]
+        static = c.static if c is not None else {}
+        depth = {}
+        for n, r in enumerate(self.ranges or []):
+            depth.setdefault(r[0], "L%d" % n)
+
+        def cname(nm):
+            if nm in static:
+                return static[nm]
+            return "loc"
+
+        def catom(at):
+            if not isinstance(at, tuple):
+                return cname(at)
+            if at[0] == "iv":
+                return depth.get(at, "Lx")
+            if at[0] == "unk":
+                return "unk<%s>" % (cname(at[1]) if isinstance(at[1], str) else "?")
+            if at[0] == "load" and len(at) == 4:
+                return "%s[%s]" % (cname(at[1]), ckey(at[2]))
+            if at[0] == "load":
+                return "ld<%s>" % (c.text(at[1]) if c is not None else norm_text(at[1]))
+            if at[0] in ("op",):
+                return "(%s%s%s)" % (ckey(at[2]), at[1], ckey(at[3]))
+            if at[0] == "div":
+                return "(%s/%s)" % (ckey(at[1]), ckey(at[2]))
+            return "<%s>" % at[0]
+
+        def ckey(k):
+            terms = []
+            for mono, coef in k:
+                m = "*".join(sorted((catom(a_) if p_ == 1 else "%s^%d" % (catom(a_), p_)) for a_, p_ in mono))
+                cf = Fraction(coef)
+                cs = str(cf.numerator) if cf.denominator == 1 else str(cf)
+                terms.append((m, cs))
+            terms.sort()
+            return "+".join(("%s*%s" % (cs, m)) if m else cs for m, cs in terms) or "0"
+        arr = cname(self.arr) if self.arr in static else (c.text(self.arr) if c is not None else norm_text(self.arr))
+        if self.idx is not None and self.kind in ("elem", None):
+            acc = "%s[%s]" % (arr, ckey(self.idx.key()))
+        elif self.idx is not None and self.kind == "region":
+            acc = "%s[%s..+%s]@%s.%s" % (arr, ckey(self.idx.key()), ckey(self.length.key()) if self.length is not None else "?", self.callee, self.cparam)
         else:
-            out = c.parts([self.arr, self.text] + conds)
-        self._parts = (out[0], out[1], sorted(set(out[2:])))
+            acc = c.text(self.text) if c is not None else norm_text(self.text)
+        conds = []
+        rel = []
+        idx_atoms = set(x for x in (self.idx.atoms() if self.idx is not None else []) if isinstance(x, tuple) or x not in static)
+        for f in self.facts:
+            if f.origin != "cond":
+                continue
+            t = ckey(f.p.key()) + ">=0"
+            if t not in conds:
+                conds.append(t)
+                if idx_atoms & set(f.p.atoms()):
+                    rel.append(t)
+        self._parts = (arr, acc, sorted(set(conds)), sorted(set(rel)))
         return self._parts
 
     def plain_key(self):
@@ -152,9 +201,8 @@ class Acc(object):
         return list(self.canon_parts()[2])
 
     def relevant_conds(self):
-        """dominating conditions that mention a variable of the access expression (renamed texts)"""
-        ids = set(re.findall(r"[A-Za-z_][\w<>#]*", self.canon_parts()[1]))
-        return [t for t in self.cond_texts() if ids & set(re.findall(r"[A-Za-z_][\w<>#]*", t))]
+        """dominating conditions that share a loop variable, loaded value or local with the index of the access"""
+        return list(self.canon_parts()[3])
 
     def show_key(self):
         return "%s|%s|%s" % (self.func, self.arr, norm_text(self.text))
@@ -1061,6 +1109,19 @@ def eliminate_ivs(p, ranges, prover, facts):
     return p
 
 
+def _atoms_in_key(k):
+    out = []
+
+    def rec(x):
+        if isinstance(x, tuple):
+            if x and isinstance(x[0], str) and x[0] in ("iv", "unk", "load", "op", "div"):
+                out.append(x)
+            for y in x:
+                rec(y)
+    rec(k)
+    return out
+
+
 def _atoms_of_key(a):
     out = set()
 
@@ -1164,6 +1225,100 @@ def sample_violation(a, extent, prover, symbols, tries=((0,), (1,), (2,), (3,), 
 
 def atoms_datadep_noiv(p):
     return [x for x in p.atoms() if isinstance(x, tuple) and x[0] != "iv"]
+
+
+def guard_witness(a, extent, prover):
+    """an input-dependent index whose every data value is tested by a dominating condition: treat those values as free integers and
+    look for values that pass every dominating condition (and loop range) and still put the index outside [0, extent).  Such a
+    witness shows that the validation the code itself performs is insufficient.  None when some data value of the index is not
+    tested at all (then a documented precondition may be what bounds it), or when no witness is found."""
+    if a.idx is None or a.length is None or extent is None:
+        return None
+    top = [x for x in a.idx.atoms() if isinstance(x, tuple) and x[0] != "iv"]
+    if not top or any(x[0] != "load" for x in top):
+        return None
+    conds = [f for f in a.facts if f.origin == "cond"]
+    for x in top:
+        if not any(x in f.p.atoms() for f in conds):
+            return None
+    ivs = [r for r in a.ranges]
+    ivatoms = set(r[0] for r in ivs)
+    free = list(top)
+    names = set()
+    for p_ in [a.idx, a.length, extent] + [y for r in ivs if r[1] for y in r[1]]:
+        for x in p_.atoms():
+            if not isinstance(x, tuple):
+                names.add(x)
+            elif x not in ivatoms and x not in free:
+                return None
+    usable = []
+    for f in a.facts:
+        if f.req is not None:
+            continue
+        ats = f.p.atoms()
+        if all((not isinstance(x, tuple)) or x in ivatoms or x in free for x in ats):
+            usable.append(f)
+            names |= set(x for x in ats if not isinstance(x, tuple))
+    names = sorted(names)
+    if len(names) > 4 or len(free) > 2:
+        return None
+    lbs = dict(prover.lower) if prover is not None else {}
+    import itertools as it
+    for combo in it.product(*[[lbs.get(n, 0) + d for d in (0, 1, 2)] for n in names]):
+        env = dict(zip(names, combo))
+        hi = 8
+        try:
+            hi = int(max(8, evalp(extent, env) + 3)) if all(not isinstance(x, tuple) for x in extent.atoms()) else 40
+        except KeyError:
+            hi = 40
+        cand = sorted(set([-2, -1, 0, 1, 2, 3] + [hi - 3, hi - 2, hi - 1, hi] + [c for c in combo] + [c + 1 for c in combo] + [c - 1 for c in combo]))
+        for vals in it.product(*[cand for _ in free]):
+            pt0 = dict(env)
+            pt0.update(dict(zip(free, vals)))
+
+            def iters(k, cur):
+                if k == len(ivs):
+                    yield dict(cur)
+                    return
+                ivatom, rng, name, stp = ivs[k]
+                if rng is None or stp is None:
+                    return
+                try:
+                    lo, hi_ = int(evalp(rng[0], cur)), int(evalp(rng[1], cur))
+                    st = abs(int(stp if isinstance(stp, int) else evalp(stp, cur)))
+                except KeyError:
+                    return
+                if st == 0:
+                    return
+                vs = list(range(lo, hi_ + 1, st))
+                if len(vs) > 6:
+                    vs = vs[:3] + vs[-3:]
+                for v in vs:
+                    cur[ivatom] = v
+                    for z in iters(k + 1, cur):
+                        yield z
+                cur.pop(ivatom, None)
+            for point in iters(0, dict(pt0)):
+                ok = True
+                for f in usable:
+                    try:
+                        if evalp(f.p, point) < 0:
+                            ok = False
+                            break
+                    except KeyError:
+                        continue
+                if not ok:
+                    continue
+                try:
+                    i = evalp(a.idx, point)
+                    ln = evalp(a.length, point)
+                    ext = evalp(extent, point)
+                except KeyError:
+                    continue
+                if i < 0 or i + ln > ext:
+                    return dict(symbols=env, data={show_atom(x): int(v) for x, v in zip(free, vals)},
+                                iteration={n[2]: int(point[n[0]]) for n in ivs if n[0] in point}, index=int(i), extent=int(ext))
+    return None
 
 
 def evalp(p, point):
@@ -1272,7 +1427,7 @@ class Extents(object):
 class Ledger(object):
     """classification of every access of one function"""
 
-    def __init__(self, func, tus, ext, table=None, requirements=None, assume_pos=(), domain=None, trusted=None, sites=None):
+    def __init__(self, func, tus, ext, table=None, requirements=None, assume_pos=(), domain=None, trusted=None, sites=None, guarded=None):
         self.func = func
         self.tus = tus
         self.ext = ext
@@ -1281,6 +1436,7 @@ class Ledger(object):
         self.trusted = trusted or {}         # (function, pointer parameter) -> reason: self-describing structure, not ledgered
         self.sites = sites                   # None: discovery mode (reason table decides); dict site tuple -> {"n": count, "why": reason}
         self.sites3 = set(k[:3] for k in sites) if sites is not None else set()
+        self.guarded3 = guarded or set()     # input-dependent accesses that a dominating condition bounded on the confirmed tree
         self.site_use = collections.Counter()
         self.rows = []
         self.lower = []                      # internal functions: polynomials over scalar parameters that every call must keep >= 0
@@ -1321,16 +1477,17 @@ class Ledger(object):
                 return None, None
             return self.table[k3], a.key()
         k3 = a.key()
-        have = set(a.cond_texts())
-        best = None
-        for sid, row in self.sites.items():
-            if sid[:3] != k3:
-                continue
-            need = set(sid[3])
-            if need <= have and (best is None or len(need) > len(best[0][3])):
-                best = (sid, row)
-        if best is not None:
-            return best[1]["why"], best[0]
+        # first among the conditions that concern the index itself (what the site was recorded with), then among all dominating ones
+        for have in (set(a.relevant_conds()), set(a.cond_texts())):
+            best = None
+            for sid, row in self.sites.items():
+                if sid[:3] != k3:
+                    continue
+                need = set(sid[3])
+                if need <= have and (best is None or len(need) > len(best[0][3])):
+                    best = (sid, row)
+            if best is not None:
+                return best[1]["why"], best[0]
         return None, None
 
     def confirmed_guarded_site(self, a):
@@ -1339,11 +1496,29 @@ class Ledger(object):
         without implying the bound is a defect of that guard)"""
         if self.sites is None:
             return a.plain_key() in self.table
-        ids = set(re.findall(r"[A-Za-z_][\w<>#]*", a.canon_parts()[1]))
         for sid in self.sites:
-            if sid[:3] == a.key() and any(ids & set(re.findall(r"[A-Za-z_][\w<>#]*", t)) for t in sid[3]):
+            if sid[:3] == a.key() and sid[3]:
                 return True
         return False
+
+    def unchecked_input_index(self, a):
+        """classical unchecked-input rule, with positive evidence only: exported function, the index is built from elements of its
+        own array parameters (and nothing unknown), no dominating condition mentions any of them, and the ledger has no confirmed
+        precondition site on this array in this function (otherwise the site may just be re-spelt: undecided)"""
+        if not self.ext.exported(self.func) or a.idx is None:
+            return False
+        top = [x for x in a.idx.atoms() if isinstance(x, tuple) and x[0] != "iv"]
+        pnames = set(p.name for p in self.func.params)
+        if not top or any(not (x[0] == "load" and len(x) == 4 and x[1] in pnames) for x in top):
+            return False
+        if any(isinstance(y, tuple) and y[0] in ("unk",) for x in top for y in _atoms_in_key(x[2])):
+            return False
+        if any(f.origin == "cond" and any(x in f.p.atoms() for x in top) for f in a.facts):
+            return False
+        arr = a.canon_parts()[0]
+        if any(sid[0] == self.func.name and sid[1] == arr for sid in (self.sites or {})):
+            return False
+        return True
 
     def row_elsewhere(self, a):
         """is there a confirmed precondition row for this (function, array, access) at another statement?"""
@@ -1403,24 +1578,40 @@ class Ledger(object):
             side.append("index < extent (%s)" % (src if ext is None else "%s, %s" % (show_poly(ext), src)))
         dd = atoms_datadep_noiv(a.idx)
         if dd:
-            guarded = [f for f in facts if f.origin == "cond" and any(x in f.p.atoms() for x in dd)]
-            if guarded and not self.confirmed_guarded_site(a):
+            shown_dd = ", ".join(sorted(set(show_atom(x) for x in dd)))[:160]
+            if self.sites is None:
+                # discovery mode (reference tree, no frozen ledger yet): everything unprovable is listed for reading
+                row["cls"] = "UNDECIDED" if a.plain_key() in self.table else "VIOLATION"
+                row["why"] = "the index depends on run-time data (%s): cannot show %s" % (shown_dd, " and ".join(side))
+            elif a.key() in self.guarded3:
+                # positive evidence: on the confirmed tree this very access (same array, same index polynomial) was bounded by a
+                # dominating condition; the conditions that dominate it now no longer imply the bound
+                guarded = sorted(set(f.text for f in facts if f.origin == "cond" and any(x in f.p.atoms() for x in dd)))[:3]
                 row["cls"] = "VIOLATION"
-                row["why"] = "the dominating condition(s) %s constrain this input-dependent index but do not imply %s" % (
-                    sorted(set(f.text for f in guarded))[:3], " and ".join(side))
+                row["why"] = ("this input-dependent index (%s) was bounded by a dominating condition on the confirmed tree; the conditions that "
+                              "dominate it now (%s) do not imply %s" % (shown_dd, guarded or "none mentions it", " and ".join(side)))
             elif self.row_elsewhere(a):
                 row["cls"] = "UNDECIDED"
-                row["why"] = ("a precondition row exists for this index expression but not at this statement (or more accesses use it than "
+                row["why"] = ("a precondition row exists for this index expression but not under these conditions (or more accesses use it than "
                               "were confirmed): the ledger needs review; cannot show %s" % " and ".join(side))
-            elif not self.ext.exported(self.func):
-                # an internal helper: what its caller established about the data it hands over is not visible here
-                row["cls"] = "UNDECIDED"
-                row["why"] = ("the index depends on run-time data (%s) read in an internal function; whether the caller validated that data "
-                              "cannot be seen from here: cannot show %s" % (", ".join(sorted(set(show_atom(x) for x in dd)))[:160], " and ".join(side)))
             else:
-                row["cls"] = "VIOLATION"
-                row["why"] = "the index depends on run-time data (%s) and no dominating condition or loop range bounds it: cannot show %s" % (
-                    ", ".join(sorted(set(show_atom(x) for x in dd)))[:160], " and ".join(side))
+                pnames_ = set(p_.name for p_ in self.func.params)
+                input_only = self.ext.exported(self.func) and all(
+                    x[0] == "load" and len(x) == 4 and x[1] in pnames_ for x in a.idx.atoms() if isinstance(x, tuple) and x[0] != "iv")
+                w = guard_witness(a, ext, self.prover) if input_only else None
+                if w is not None:
+                    # positive evidence: values that pass every test the code applies to them and still index outside the array
+                    row["cls"] = "VIOLATION"
+                    row["why"] = "the conditions that test this input-dependent index let through values that are out of bounds: %s" % w
+                    row["witness"] = w
+                elif self.unchecked_input_index(a):
+                    row["cls"] = "VIOLATION"
+                    row["why"] = ("an element of an input array (%s) is used as an index with no test at all, in a function that has no documented "
+                                  "precondition on this array: cannot show %s" % (shown_dd, " and ".join(side)))
+                else:
+                    row["cls"] = "UNDECIDED"
+                    row["why"] = ("the index depends on run-time data (%s) and neither a dominating condition nor a confirmed precondition bounds it: "
+                                  "cannot show %s" % (shown_dd, " and ".join(side)))
             return row
         w = sample_violation(a, ext, self.prover, None)
         if w is not None:
@@ -1657,7 +1848,7 @@ def show_poly(p):
     return " + ".join(terms).replace("+ -", "- ") if terms else "0"
 
 
-def run_all(tus, ext, table=None, domains=None, funcs=None, trusted=None, sites=None):
+def run_all(tus, ext, table=None, domains=None, funcs=None, trusted=None, sites=None, guarded=None):
     """ledgers for all functions, callees of internal functions first so that their requirement summaries exist when the
     callers are analysed.  domains: function name -> {scalar parameter: lower bound}"""
     table = table or {}
@@ -1689,7 +1880,7 @@ def run_all(tus, ext, table=None, domains=None, funcs=None, trusted=None, sites=
         f = byname[n]
         if funcs is not None and n not in funcs and ext.exported(f):
             continue
-        L = Ledger(f, tus, ext, table=table, requirements=req, domain=domains.get(n), trusted=trusted, sites=sites)
+        L = Ledger(f, tus, ext, table=table, requirements=req, domain=domains.get(n), trusted=trusted, sites=sites, guarded=guarded)
         L.run()
         out[n] = L
         if not ext.exported(f):
@@ -1697,44 +1888,65 @@ def run_all(tus, ext, table=None, domains=None, funcs=None, trusted=None, sites=
                           is_ptr=[("*" in (p.ty or "")) or ("[" in (p.ty or "")) for p in f.params],
                           req=L.requirement_summary(), domain=domains.get(n) or {}, lower=list(L.lower))
     # context-sensitive second pass: an internal helper whose accesses cannot be decided on their own (its index comes from data or
-    # extents that only its callers know) is analysed inside each caller, with its body in place of the call statement.  When every
-    # call site could be treated like that, the helper's own undecided rows are answered by the callers' ledgers.
-    needs = set()
-    for _round in range(3):
-        more = set(n for n, L in out.items() if not ext.exported(byname[n]) and cfront.inlinable(byname[n]) is None
-                   and any(r["cls"] == "UNDECIDED" for r in L.rows))
-        # ... and a helper whose summarised need cannot be shown at some call site (the summary forgets the caller's context)
-        for n, L in out.items():
-            for r in L.rows:
-                g = getattr(r["acc"], "callee", None)
-                if r["cls"] == "UNDECIDED" and g in byname and not ext.exported(byname[g]) and cfront.inlinable(byname[g]) is None:
-                    more.add(g)
-        more -= needs
-        if not more:
-            break
-        needs |= more
-        still_called = set()
-        callers = collections.defaultdict(int)
+    # extents that only its callers know), or whose summary / return value leaves rows of a caller undecided, is analysed inside
+    # that caller with its body in place of the call.  The result replaces the caller's ledger only when it is strictly better;
+    # when every call site of a helper was treated like that, the helper's own undecided rows are answered by its callers.
+    def undecided(L):
+        return sum(1 for r in L.rows if r["cls"] == "UNDECIDED")
+
+    def can_inline(g):
+        return g in byname and not ext.exported(byname[g]) and cfront.inlinable(byname[g]) is None
+    inlined_everywhere = collections.defaultdict(lambda: True)
+    ncallers = collections.Counter()
+    for _round in range(2):
+        weak = set(n for n, L in out.items() if can_inline(n) and undecided(L))
+        changed = False
         for n in order:
-            f = byname[n]
             if n not in out:
                 continue
-            hit = calls[n] & needs
-            if not hit:
-                continue
-            nf, done, kept = cfront.inline_calls(f, byname, which=needs, depth=3)
-            still_called |= (kept & needs)
-            for g in done:
-                callers[g] += 1
-            L = Ledger(nf, tus, ext, table=table, requirements=req, domain=domains.get(n), trusted=trusted, sites=sites)
-            L.run()
-            L.inlined = sorted(done)
-            out[n] = L
-        for g in needs:
-            if g in still_called or not callers.get(g):
-                continue
-            for r in out[g].rows:
+            f = byname[n]
+            L = out[n]
+            base_inl = set(getattr(L, "inlined", None) or [])
+            c_weak = set(g for g in calls[n] if g in weak)
+            c_rows, c_val = set(), set()
+            if undecided(L):
+                c_rows = set(r["acc"].callee for r in L.rows if r["cls"] == "UNDECIDED" and can_inline(getattr(r["acc"], "callee", None)))
+                # helpers whose return value feeds an index ( p = address_of(i, j) )
+                for st, x in cfront.all_exprs(f.body):
+                    if x.k == "asg" and x.a[1] is not None:
+                        rc = x.a[1]
+                        while rc.k == "cast":
+                            rc = rc.a[0]
+                        if rc.k == "call" and can_inline(rc.name) and cfront.pure_function(byname[rc.name]):
+                            c_val.add(rc.name)
+            tried = []
+            for cands in (c_val, c_weak, c_val | c_weak, c_rows, c_val | c_weak | c_rows):
+                cands = set(g for g in cands if g and can_inline(g) and g != n) | base_inl
+                if not cands or cands == base_inl or cands in tried:
+                    continue
+                tried.append(cands)
+                nf, done, kept = cfront.inline_calls(f, byname, which=cands, depth=3)
+                if not done:
+                    continue
+                L2 = Ledger(nf, tus, ext, table=table, requirements=req, domain=domains.get(n), trusted=trusted, sites=sites, guarded=guarded)
+                L2.run()
+                if undecided(L2) < undecided(L) or (undecided(L2) == 0 and any(g in weak for g in done) and not set(done) <= base_inl):
+                    L2.inlined = sorted(done)
+                    out[n] = L2
+                    L = L2
+                    base_inl = set(done)
+                    changed = True
+                    if undecided(L2) == 0:
+                        break
+        if not changed:
+            break
+    for g, Lg in out.items():
+        if not (can_inline(g) and undecided(Lg)):
+            continue
+        callers = [n for n in out if g in calls.get(n, ())]
+        if callers and all(g in (getattr(out[n], "inlined", None) or []) for n in callers):
+            for r in Lg.rows:
                 if r["cls"] == "UNDECIDED":
                     r["cls"] = "CONTEXT"
-                    r["why"] = "decided inside each of its %d caller(s), with this function's body in place of the call" % callers[g]
+                    r["why"] = "decided inside each of its %d caller(s), with this function's body in place of the call" % len(callers)
     return out
